@@ -95,9 +95,10 @@ def led_line(typed, ai='', pref_empty=False, regs=None):
     return ln, ai
 
 
-def led_input(pref, post, typed, regs=None):
-    """Insert mode with autoindent: returns the replacement text, post as left at the end, and the number of
-    lines the input added (see DESIGN Appendix D)."""
+def led_input(pref, post, typed, regs=None, xai=True):
+    """Insert mode (autoindent option xai): returns the replacement text, post as left at the end (after a typed
+    newline its leading blanks are dropped under autoindent; the cursor is counted against THAT text), and the
+    number of lines the input added (see DESIGN Appendix D)."""
     k = 0
     while k < len(pref) and k < 127 and pref[k] in BLANK:
         k += 1
@@ -117,10 +118,13 @@ def led_input(pref, post, typed, regs=None):
         out += pref + ln + ('' if last else '\n')
         if not pref:
             ai = (ai + ln[:sp])[:127]
+        if not xai:
+            ai = ''
         if last:
             break
         pref = ''
-        post = post.lstrip(BLANK)
+        if xai:
+            post = post.lstrip(BLANK)
     return out + post, post, nls
 
 
@@ -149,6 +153,7 @@ class Ref8(c07.Ref):
     def __init__(self, lines, rows):
         super().__init__(list(lines), rows)
         self.regs = {}
+        self.ai = True            # the autoindent option (:se ai / :se noai)
         self.traffic = []         # (register name, text, linewise) of every reg_put, for the register model
 
     # -- buffer helpers
@@ -311,13 +316,13 @@ class Ref8(c07.Ref):
                     k = 0
                     while k < len(l1) and l1[k] in BLANK:
                         k += 1
-                    pref, post = l1[:k], '\n'
+                    pref, post = (l1[:k] if self.ai else ''), '\n'
                 else:
                     pref, post = sub(self.full(r1), 0, o1), sub(self.full(r2), o2, -1)
             else:
                 pref, post = '', '\n'       # the empty buffer: the input ends the (new) first line
             self.r = r1
-            rep, post2, nls = led_input(pref, post, text, self.regs.get)
+            rep, post2, nls = led_input(pref, post, text, self.regs.get, self.ai)
             self.nextline(nls)                  # every line added scrolls the window as it is typed
             self.edit(rep, r1, r2 + 1 if self.L or True else 0)
             row = rep.count('\n') + 1
@@ -403,8 +408,8 @@ class Ref8(c07.Ref):
             k = 0
             while ln is not None and k < len(ln) and ln[k] in BLANK:
                 k += 1
-            pref, post = (ln[:k] if ln is not None else ''), '\n'
-        rep, post2, nls = led_input(pref, post, text, self.regs.get)
+            pref, post = (ln[:k] if ln is not None and self.ai else ''), '\n'
+        rep, post2, nls = led_input(pref, post, text, self.regs.get, self.ai)
         self.nextline(nls)
         if key in 'oO' and not L:
             self.edit('\n', 0, 0)
@@ -521,6 +526,9 @@ class Ref8(c07.Ref):
                 self.insert(c[1], c[2])
             elif k == 'pipe':
                 self.pipe(c[1], c[2], c[3], c[4], c[5])
+            elif k == 'ai':                     # :se ai / :se noai -- an ex command: window and column are refreshed
+                self.ai = bool(c[1])
+                self.finish(1)
             else:
                 raise ValueError(k)
             if not self.L and (self.r, self.o) != (0, 0):
@@ -569,6 +577,8 @@ def keys_of(prog):
             out += regpfx(c[1]) + cnts(c[2]) + c[3] + c[4] + ESC
         elif k == 'i':
             out += c[1] + c[2] + ESC
+        elif k == 'ai':
+            out += ':se ai\n' if c[1] else ':se noai\n'
         elif k == 'pipe':
             _, a1, a2, mkey, marg, cmd = c
             out += cnts(a1) + '!' + cnts(a2) + ('!' if mkey == 'DBL' else mkey) + (marg or '') + cmd + '\n'
@@ -656,7 +666,8 @@ def model_req(text, rows, prog):
     """the `op` request; programs with the ! filter are outside the Coq interpreter: an empty program is sent instead"""
     if has_pipe(prog):
         prog = []
-    w = ['op', str(rows - 1), hxs(text)]
+    # programs that set the autoindent option go through ViInsDefs.exec_prog_x (`opx`), the others through ViDefs.exec_prog
+    w = ['opx' if any(c[0] == 'ai' for c in prog) else 'op', str(rows - 1), hxs(text)]
     for c in prog:
         k = c[0]
         if k == 'g':
@@ -680,6 +691,8 @@ def model_req(text, rows, prog):
             w.append('ci:%d:%d:%d:%s' % (regnum(c[1]), c[2], ord(c[3]), hxs(c[4])))
         elif k == 'i':
             w.append('i:%d:%s' % (ord(c[1]), hxs(c[2])))
+        elif k == 'ai':
+            w.append('ai:%d' % (1 if c[1] else 0))
         else:
             raise ValueError(k)
     return ' '.join(w)
@@ -960,6 +973,135 @@ def gen_prog(rng, text):
     return prog
 
 
+# ------------------------------------------------------------------------------------------
+# stream "split": <Enter> typed INSIDE a line -- in front of, inside and behind runs of blanks and tabs -- by every
+# insert-type command, with autoindent on and off, then a command that shows where the cursor was left.
+# (led.c led_input drops the leading blanks of the text right of the insertion point from the CALLER's buffer after a
+# newline under autoindent; vi.c vi_input counts the cursor against that buffer.)
+
+SPLIT_WORDS = ['foo', 'x', 'ab', 'é', '中b', 'key', 'v.', '(a)', 'w_1', 'éé']
+SPLIT_RUNS = [' ', '  ', '\t', ' \t', '\t ', '   ', '\t\t', ' \t ']
+SPLIT_SEGS = ['', '', 'X', 'ab', 'XY', ' ', '  y', '\tz', 'é', '中', ' ', '\t', 'q ', 'a b', ' \t', 'xyz']
+SPLIT_EDIT = ['\x14', '\x04', '\x08', '\x17', '\x15', '\x16x', '\x14\x14', '\x04\x04', '\x7f', '\x10']
+SPLIT_MOT = ['w', 'e', 'l', 'h', 'b', '$', '0', '^', 'W', 'E', 'B', ' ', '|']      # never fail
+
+
+def gen_split_line(rng):
+    """words separated by runs of blanks and tabs; sometimes indented, sometimes ending in blanks, empty or blanks only"""
+    t = rng.below(14)
+    if t == 0:
+        return ''
+    if t == 1:
+        return rng.choice(SPLIT_RUNS)
+    s = rng.choice(SPLIT_RUNS) if rng.chance(1, 3) else ''
+    n = rng.range(1, 3)
+    for i in range(n):
+        s += rng.choice(SPLIT_WORDS)
+        if i < n - 1 or rng.chance(1, 4):
+            s += rng.choice(SPLIT_RUNS)
+    return s
+
+
+def gen_split_typed(rng, enters=None):
+    """typed text with 1..3 <Enter> keys; the input lines are short words, blanks, nothing; now and then an editing key"""
+    n = enters if enters is not None else rng.range(1, 3)
+    segs = []
+    for _ in range(n + 1):
+        seg = rng.choice(SPLIT_SEGS)
+        if rng.chance(1, 7):
+            k = rng.below(len(seg) + 1)
+            seg = seg[:k] + rng.choice(SPLIT_EDIT) + seg[k:]
+        segs.append(seg)
+    return '\n'.join(segs)
+
+
+def split_offsets(line, pick):
+    """offsets of the line next to a blank (the cursor on a blank, or just in front of one)"""
+    return [o for o in range(len(line)) if line[o] in BLANK or (o + 1 < len(line) and line[o + 1] in BLANK)]
+
+
+def gen_split_cmd(rng, typed):
+    t = rng.below(14)
+    if t < 6:
+        return ['i', rng.choice('iaiaIA'), typed]
+    if t < 7:
+        return ['i', rng.choice('oO'), typed]
+    if t < 10:
+        return ['ci', rng.choice(['', '', 'a']), rng.choice([0, 0, 1, 2, 3]), rng.choice('sssCS'), typed]
+    if t < 11:
+        return ['op', '', rng.choice([0, 0, 2]), 'c', 0, 'DBL', None, typed]
+    mkey = rng.choice(SPLIT_MOT)
+    return ['op', rng.choice(['', '', 'b']), rng.choice([0, 0, 2, 3]) if mkey != '0' else 0, 'c', 0, mkey, None, typed]
+
+
+def gen_split_reveal(rng):
+    """what follows the insert: nothing (the marker of the observation shows the cursor) or one command at the cursor"""
+    t = rng.below(12)
+    if t < 3:
+        return []
+    if t < 4:
+        return [['i', 'i', 'M']]
+    if t < 5:
+        return [['x', '', rng.choice([0, 0, 2]), rng.choice('xX')]]
+    if t < 7:
+        return [['x', '', 0, rng.choice('pP')]]
+    if t < 8:
+        return [['m', rng.choice([0, 1, 2]), rng.choice('jk')], ['x', '', 0, 'x']]         # the sticky column
+    if t < 9:
+        return [['x', '', 0, rng.choice('~D')]]
+    if t < 10:
+        return [['r', 0, 'z']]
+    return [gen_split_cmd(rng, gen_split_typed(rng, rng.choice([0, 1])))]
+
+
+def gen_split_case(rng):
+    ls = [gen_split_line(rng) for _ in range(rng.range(1, 3))]
+    if rng.chance(1, 4):
+        ls.insert(rng.below(len(ls) + 1), c07.gen_line(rng).replace('‌', '​'))
+    text = '\n'.join(ls) + '\n'
+    ls = c07.lines_of(text)
+    prog = [['ai', 0 if rng.chance(2, 5) else 1]]
+    if rng.chance(1, 8):                             # something in the unnamed register for ^P and the puts
+        prog += [['g', rng.below(len(ls)) + 1], ['op', '', 0, 'y', 0, rng.choice(['w', 'DBL', '$']), None, '']]
+    for _ in range(rng.choice([1, 1, 1, 2])):
+        r = rng.below(len(ls)) if ls else 0
+        line = ls[r] if ls else ''
+        if ls:
+            prog.append(['g', r + 1])
+        near = split_offsets(line, rng)
+        if line:
+            o = rng.choice(near) if near and rng.chance(1, 2) else rng.below(len(line))
+            if o:
+                prog.append(['m', o, ' '])
+        prog.append(gen_split_cmd(rng, gen_split_typed(rng)))
+        prog += gen_split_reveal(rng)
+        if rng.chance(1, 10):
+            prog.append(['ai', rng.below(2)])
+    return {'text': text, 'rows': rng.choice([24, 24, 6]), 'prog': prog}
+
+
+SPLIT_LINES_X = ['foo bar', 'key \t value', 'ab  éé', '  in  dent ', '\tt\t\tu', 'a b', ' ', 'x', '']
+SPLIT_TYPED_X = ['\n', '\nXY', 'ab\ncd', ' \n', '\n  z', 'p\n\nq', '\n\n', 'a\n \nb', '\t\n\n\nc', '\x14\nk']
+
+
+def gen_split_exhaustive():
+    """every offset of a few lines with blank runs x every insert-type command x typed texts with 1..3 newlines x ai on/off
+    (thorough tier)"""
+    cases = []
+    for line in SPLIT_LINES_X:
+        for o in range(max(1, len(line))):
+            for typed in SPLIT_TYPED_X:
+                for ai in (1, 0):
+                    cmds = [['i', k, typed] for k in 'iaIAoO'] + [['ci', '', 0, 's', typed], ['ci', '', 2, 's', typed], ['ci', '', 0, 'C', typed],
+                            ['ci', '', 0, 'S', typed], ['op', '', 0, 'c', 0, 'w', None, typed], ['op', '', 0, 'c', 0, 'e', None, typed]]
+                    for cmd in cmds:
+                        if cmd[0] == 'i' and cmd[1] in 'IAoO' and o:
+                            continue                    # these do not depend on the offset
+                        prog = [['ai', ai], ['g', 2]] + ([['m', o, ' ']] if o else []) + [cmd]
+                        cases.append({'text': 'up\n' + line + '\n  down\n', 'rows': 24, 'prog': prog})
+    return cases
+
+
 def check_case(exe, c):
     text, rows, prog = c['text'], c['rows'], c['prog']
     ob = observe(exe, text, rows, prog)
@@ -1015,6 +1157,15 @@ def run(ctx):
         for i in range(n):
             text = gen_case_text(rng)
             cases.append({'text': text, 'rows': rng.choice([24, 24, 24, 6]), 'prog': gen_prog(rng, text)})
+        nsplit = 0
+        for i in range(1500 if ctx.quick else 30000):
+            cases.append(gen_split_case(rng))
+            nsplit += 1
+        if not ctx.quick:
+            xs = gen_split_exhaustive()
+            cases += xs
+            nsplit += len(xs)
+        res.count('cases of the split stream (newline typed inside a line, ai on/off)', nsplit)
     res.count('cases', len(cases))
     obs = vlib.pmap(lambda c: check_case(exe, c), cases)
     # the Coq interpreter on every case: text, cursor and registers against the implementation
